@@ -46,6 +46,12 @@ pub mod std {
             if !rt::in_run() {
                 ::std::process::exit(code);
             }
+            let me = rt::current_task();
+            if rt::with(|st| st.blocked_on_stdout.contains(&me)) {
+                // this thread wrote to the stalled standard output before: in reality it is still
+                // blocked in that write and never gets here
+                return;
+            }
             rt::log(Kind::ProcessExit, code as u32 as u64, 0);
             rt::with(|st| {
                 if st.stop.is_none() {
